@@ -256,10 +256,10 @@ def check_case(case, ctx: Ctx, sub="roundtrip"):
                                 _norm_envs(loaded.get_environments(F.FlowIR.LabelDefault))):
             _rep("environments-differ", "mode=%s: %s: written %r, loaded %r" % (mode, path, x, y))
         for path, x, y in _diff(_norm_status(written.get_status()), _norm_status(loaded.get_status())):
-            _rep("status-differs:" + _strip_index(path).split(".", 1)[-1],
+            _rep("status-differs:" + _strip_index(path).rsplit(".", 1)[-1],
                     "mode=%s: %s: written %r, loaded %r" % (mode, path, x, y))
         for path, x, y in _diff(_norm_output(written.get_output()), _norm_output(loaded.get_output())):
-            _rep("output-differs:" + _strip_index(path).split(".", 1)[-1],
+            _rep("output-differs:" + _strip_index(path).rsplit(".", 1)[-1],
                     "mode=%s: %s: written %r, loaded %r" % (mode, path, x, y))
     finally:
         shutil.rmtree(loc, ignore_errors=True)
